@@ -19,6 +19,7 @@ class NPProxy:
 
     def __init__(self, **over):
         self._over = over
+        self.__dict__.update(over)      # instance attributes win over the class's static isclose / clip
 
     def __getattr__(self, n):
         if n in self._over:
